@@ -32,17 +32,17 @@ def compact(events, ifi="vf0", conf=False):
         elif ev in ("done", "rcall"):
             out.append({"ev": ev, "k": e["k"], "t": t})
         elif ev == "in":
-            kind = e["kind"]
+            kind, cls = e["kind"], ""
             if kind.startswith("readerr"):
-                kind = "readerr"
-            out.append({"ev": ev, "k": e["k"], "kind": kind, "src": e["src"], "hl": e["hl"], "t": t})
+                kind, cls = "readerr", kind.split(":", 1)[1] if ":" in kind else "other"
+            out.append({"ev": ev, "k": e["k"], "kind": kind, "cls": cls, "src": e["src"], "hl": e["hl"], "t": t})
         elif ev == "fwd":
             out.append({"ev": ev, "val": e["val"], "ok": e["ok"], "t": t})
         elif ev == "wcall":
             out.append({"ev": ev, "k": e["k"], "dst": e["dst"], "mc": e["mc"], "type": e["type"],
                         "life": e["life"], "body": e["body"], "t": t})
         elif ev == "wret":
-            out.append({"ev": ev, "k": e["k"], "dst": e["dst"], "mc": e["mc"], "ok": e["ok"], "t": t})
+            out.append({"ev": ev, "k": e["k"], "dst": e["dst"], "mc": e["mc"], "ok": e["ok"], "cls": e.get("class", ""), "t": t})
         elif ev == "cnt":
             f = CNT.get(e["name"])
             c = f(e["labels"]) if f else None
@@ -84,7 +84,7 @@ def compact(events, ifi="vf0", conf=False):
         elif ev == "arrive" and conf:
             kind = e["kind"]
             if kind.startswith("readerr"):
-                kind = "readerr"
+                kind = "readerrsys" if kind == "readerr:sys" else "readerr"
             out.append({"ev": "arrive", "kind": kind, "src": e["src"], "hl": e["hl"], "tag": e.get("tag", ""), "t": t})
         elif ev == "flip" and conf:
             out.append({"ev": "flip", "val": e["val"], "t": t})
